@@ -344,6 +344,17 @@ DESERIALIZER_PATCH = [
 ]
 
 
+DESERIALIZER_PATCH.append(
+    (
+        "                self.names.add(chain[0])\n            return False\n        return True\n",
+        "                self.names.add(chain[0])\n            return False\n"
+        "        # ``f(x).attr`` / ``type(x).__module__``: only the base expression reads names, ``attr`` is a member name.\n"
+        "        node.value.visit(self)\n"
+        "        return False\n",
+    )
+)
+
+
 FILTER_PATCH = [
     (
         "                ):\n                    self.__remove_non_holding_assertions(test, result)\n",
@@ -411,6 +422,7 @@ def _fix_deserializer():
 
     ns = _patched_namespace(de, DESERIALIZER_PATCH)
     de._RootNameCollector.visit_Lambda = ns["_RootNameCollector"].visit_Lambda
+    de._RootNameCollector.visit_Attribute = ns["_RootNameCollector"].visit_Attribute
     de.CstStatementDeserializer._handle_assert = ns["CstStatementDeserializer"]._handle_assert
 
 
